@@ -110,6 +110,7 @@ const char* token_fault_name(int f)
     case TF_BAD_TERNARY: return "bad-conditional";
     case TF_OVERFLOW_LITERAL: return "overflow-literal";
     case TF_CHAN_OPERAND: return "channel-operand";
+    case TF_CHAN_TO_INT: return "channel-prefix-on-int";
     }
     return "?";
 }
@@ -199,6 +200,14 @@ FaultResult apply_token_fault(const std::string& text, const std::vector<Token>&
             if (after_system)
                 r.guaranteed_error = true;
         }
+        break;
+    }
+    case TF_CHAN_TO_INT: {
+        if (tok(ti) != "chan" || ti == 0 || (tok(ti - 1) != "urgent" && tok(ti - 1) != "broadcast"))
+            return r;
+        r.text = before(ti) + "int" + after(ti);
+        r.applied = true;
+        r.guaranteed_error = true;  // (the one fault that is ill-formed by construction inside a declaring block)
         break;
     }
     case TF_CHAN_OPERAND: {
